@@ -6,5 +6,6 @@ require golang.org/x/tools v0.29.0
 
 require (
 	golang.org/x/mod v0.22.0 // indirect
+	golang.org/x/net v0.34.0
 	golang.org/x/sync v0.10.0 // indirect
 )
